@@ -89,13 +89,18 @@ CHECKS = {
          "core-level correspondence + dense error-bound oracle",
     ref="§3 C04"),
  "C05": dict(
-    text="Lean 4 theorems given the SVD kernel contract (M=U·diag S·Vh, UᵀU=I): the right factor truncated_svd computes is diag(S_r)·Vh_r, "
-         "so left·right is the rank-r truncation; the rank is the smallest meeting the budget and never exceeds the request; zero tail "
-         "⇒ exact reproduction already at budget 0. rankSelect is compared with the implementation on recorded singular values. "
-         "Error vs sum/max of tails for Tensor(x, ranks_tt/ranks_tucker), orthonormality, optimality of the product, CP-ALS by a NumPy SVD oracle.",
-    note="PARTIAL: ‖M−left·right‖² = tail, the two-sided TT/Tucker bound (would assume Eckart–Young and σ-monotonicity, absent from "
-         "Mathlib) and CP-ALS monotonicity are open statements. Trusted: Lean kernel + standard axioms; torch.linalg.svd/eigh/lstsq "
-         "(recorded); harness glue; sampling. Known findings: eig path on rank-deficient/small-norm input, tiny-norm threshold.",
+    text="Lean 4 theorems given the SVD kernel contract (M=U·diag S·Vh, UᵀU=I, VhVhᵀ=I): the right factor truncated_svd computes is "
+         "diag(S_r)·Vh_r, so left·right is the rank-r truncation (truncation_right_factor); its squared Frobenius error is EXACTLY the "
+         "discarded tail Σ_{l≥r} S_l² (truncation_error, via frob_orth) and therefore ≤ δ² at the selected rank "
+         "(truncated_svd_within_budget); the rank is the smallest meeting the budget and never exceeds the request; zero tail ⇒ exact "
+         "reproduction at budget 0. Tie: rankSelect is compared with the implementation on recorded singular values; the kernel "
+         "contract, left@right = U_r S_r Vh_r and ‖M−left@right‖² = tail are validated on every recorded call; exact ties (integer "
+         "spectra, budget = a tail) decide ≤ vs <. Error vs sum/max of tails for Tensor(x, ranks_tt/ranks_tucker), orthonormality, "
+         "optimality of the product, CP-ALS by a NumPy SVD oracle.",
+    note="PARTIAL: the two-sided TT/Tucker bound in terms of the ORIGINAL unfoldings (needs Eckart–Young and σ-monotonicity, absent "
+         "from Mathlib) and CP-ALS monotonicity are open statements. Trusted: Lean kernel + standard axioms; torch.linalg.svd/eigh/lstsq "
+         "(recorded, contract validated numerically); harness glue; sampling. Known findings: eig path on rank-deficient/small-norm "
+         "input, tiny-norm threshold.",
     tech="Lean 4 proof modulo the SVD kernel contract + kernel-recording correspondence + NumPy SVD oracle",
     ref="§3 C05"),
  "C13": dict(
@@ -125,24 +130,26 @@ CHECKS = {
  "C09": dict(
     text="Lean 4 theorems: numerator and denominator of sobol() are the mask-weighted and the total sum of a(j)·am(j) over the extended "
          "index box (C06.dot_eq + C02.mul_dense), additivity over masks, the all-ones mask gives index 1, the ANOVA operator only sees "
-         "w/Σw (scale invariance of marginals); the entries of the extended tensor are the ANOVA terms (C10.anova_dense). "
+         "w/Σw (scale invariance of marginals); the entries of the extended tensor are the ANOVA terms (C10.anova_dense); Parseval for "
+         "the ANOVA transform (anova_parseval, by induction over the modes from the one-mode identity Aᵀ·diag(1,w)·A = diag(w)): the "
+         "extW-weighted squares of the extended array sum to E[f²] (second_moment) and its all-zero entry is E[f] (anova_mean), so the "
+         "denominator (empty term removed) IS the variance and the numerator a sum of variance components. "
          "anova_decomposition/undo, dot and mul are tied to /repo core-for-core (C10, C06, C02 correspondences); the Sobol values, "
          "[0,1] range, total ≥ component, dimension distribution, mean dimension and the caller's marginals being untouched are checked "
          "against a brute-force inclusion–exclusion ANOVA in NumPy.",
-    note="Trusted: Lean kernel + standard axioms; harness glue; NumPy brute-force oracle; sampling. The final identification of "
-         "Σ_j mask(j)a(j)am(j) with the variance components D_S needs the orthogonality of ANOVA terms, which is not formalised (open); "
-         "sobol()'s own glue (removing the empty term, weighting rows, clamped mask gather, identity core for one-hot masks) has no Lean "
+    note="Trusted: Lean kernel + standard axioms; harness glue; NumPy brute-force oracle; sampling. sobol()'s own glue (removing the empty term, weighting rows, clamped mask gather, identity core for one-hot masks) has no Lean "
          "model and is covered by the oracle only.",
     tech="Lean 4 proof (composition of C06/C02/C10 theorems) + differential correspondence of the building blocks + brute-force oracle",
     ref="§3 C09"),
  "C10": dict(
     text="Lean 4 theorems: anova_decomposition applies to every mode the operator A=[wᵀ; I−1wᵀ] (anova_dense, any modes/ranks/formats); "
          "row 0 integrates against the marginal, row i+1 evaluates and subtracts the integral (anovaL_row); B·A=I (undo is the inverse, "
-         "no condition on weights); rows 1..I have zero weighted mean when Σw=1 (centred terms); normalised weights sum to 1 and are "
+         "no condition on weights), lifted to tensors: undo_anova_decomposition(anova_decomposition(t)) = t (undo_anova_dense); rows 1..I have zero weighted mean when Σw=1 (centred terms); normalised weights sum to 1 and are "
          "scale-invariant. anova_decomposition and undo are tied to /repo core-for-core; all term-level claims (each term equals the "
          "brute-force term, depends only on its variables, orthogonality, variance additivity, truncate_anova) by a NumPy oracle.",
-    note="Trusted: Lean kernel + standard axioms; harness glue; NumPy brute-force oracle; sampling. Open (not formalised): uniqueness "
-         "and orthogonality of the terms, the tensor-level composition undo∘anova (matrix identity B·A=I is proved), truncate_anova.",
+    note="Trusted: Lean kernel + standard axioms; harness glue; NumPy brute-force oracle; sampling. undo_anova_dense proves undo∘anova = id on the dense arrays of every "
+         "format. Open (not formalised): uniqueness of the terms, truncate_anova (oracle only); orthogonality / variance additivity is "
+         "C09.anova_parseval.",
     tech="Lean 4 proof (L1 with the ANOVA operator; matrix identities over a field) + differential correspondence + brute-force oracle",
     ref="§3 C10"),
  "C15": dict(
